@@ -2,6 +2,15 @@
 """Generate MANIFEST.json from the table below (single source of truth)."""
 import json, subprocess
 CHECKS = {
+ "C08": ("exploration", "history round-trip monitor for the lossless animation encoder (added canvases as oracle; AnimDecoder and an independent compositor both play the file back)",
+         "Random frame histories from a mutation grammar are encoded, read back and played; the normalised picture sequences, per-picture display times, total duration, loop count and canvas size must match.",
+         "Both sides are normalised by merging consecutive identical canvases; transparent pixels compare equal regardless of colour.", "3/C08"),
+ "C09": ("exploration", "reference-model monitor: AnimDecoder vs an independent compositing model on programmatic animations, incl. exhaustive small domain and blend arithmetic",
+         "Every snapshot of every explored animation must equal the model's canvas; Reset must replay identically; returned snapshots are re-hashed after later calls. Thorough enumerates the complete 2-frame small domain (6.7M tuples) and all 2^32 (src a,dst a,src c,dst c) blend cases.",
+         "Blend oracle = exact special cases + libwebp's documented integer formula; unrealisable HasAlpha flags excluded.", "3/C09"),
+ "C18": ("exploration", "history round-trip monitor for lossy / mixed-codec animations on the alpha plane (source alpha as oracle)",
+         "Alpha-bearing frame histories x Lossless x AllowMixed x Quality x Kmin/Kmax; played-back alpha planes must equal the source alpha planes; codecs actually used per frame are read back.",
+         "Frames with identical alpha planes are merged on both sides before comparison; colour is not compared.", "3/C18"),
  "C14": ("exploration", "history monitor: random Muxer call sequences checked against a model of what was put in, an independent RIFF walker, the Demuxer, the second parser and libwebp",
          "Each accepted history's output is demuxed and compared field by field with the history (payload bytes, alpha, offsets/2*2, clamped durations, blend/dispose, loop, background, canvas, metadata); rejected histories must write nothing.",
          "Model of accepted input: durations clamped to [0,2^24-1], loop count to [0,65535], animated iff >1 frame or a positive duration. D11 (still with canvas != image) is a recorded known finding.", "3/C14"),
